@@ -191,6 +191,10 @@ mod imp {
                     for _ in 0..1 + self.rng.below(3) {
                         body.push(format!("    {}", self.simple_stmt(cls).replace('\n', "\n    ")));
                     }
+                    // keep string sizes bounded: doubling in a loop would otherwise reach the heap limit
+                    for k in 0..3 {
+                        body.push(format!("    if s{k}.len() > 300 {{ s{k} = \"t\" + \"r\" }}"));
+                    }
                     out.push(format!(
                         "let mut {i} = 0\nwhile {i} < {c} {{\n{}\n    {i} = {i} + 1\n}}",
                         body.join("\n")
